@@ -1,4 +1,5 @@
 //! C08 — numbers are written so that they read back bit-identically; raw numbers are verbatim.
+use sonic_rs::JsonValueMutTrait;
 use sonic_rs::{JsonNumberTrait, JsonValueTrait, RawNumber, Value};
 
 use crate::core::{Case, Check, Ctx, GenParams, Tier};
@@ -229,6 +230,42 @@ fn check_raw(ctx: &mut Ctx, lit: &str) {
             }
             Err(e) => ctx.fail("dom-rawnumber-rejects", format!("{:?}: {}", doc, e)),
         }
+        // an OWNED raw-number value (to_value of a RawNumber, to_value of a raw-number DOM) keeps
+        // the literal through clone, copy-on-write of a cloned container, and re-serialisation
+        if let Ok(rn) = sonic_rs::from_str::<RawNumber>(lit) {
+            ctx.ops(1);
+            match sonic_rs::to_value(&rn) {
+                Ok(v) => {
+                    let c = v.clone();
+                    let arr = Value::from(vec![v.clone(), c.clone()]);
+                    let mut arr2 = arr.clone();
+                    if let Some(a) = arr2.as_array_mut() {
+                        a.push(Value::from(7u64));
+                    }
+                    let mut obj = sonic_rs::json!({"n": v.clone()});
+                    let obj2 = obj.clone();
+                    obj["x"] = Value::from(true);
+                    let texts = [
+                        ("to_value", sonic_rs::to_string(&v).unwrap_or_default(), lit.to_string()),
+                        ("clone", sonic_rs::to_string(&c).unwrap_or_default(), lit.to_string()),
+                        ("array", sonic_rs::to_string(&arr).unwrap_or_default(), format!("[{},{}]", lit, lit)),
+                        ("cloned-array-after-push", sonic_rs::to_string(&arr2).unwrap_or_default(), format!("[{},{},7]", lit, lit)),
+                        ("cloned-object", sonic_rs::to_string(&obj2).unwrap_or_default(), format!("{{\"n\":{}}}", lit)),
+                    ];
+                    for (name, got, want) in &texts {
+                        if got != want {
+                            ctx.fail(&format!("owned-rawnumber-not-verbatim:{}", name), format!("{:?} instead of {:?}", crate::core::truncate(got, 120), crate::core::truncate(want, 120)));
+                        }
+                    }
+                    let member = obj.get("n").and_then(|x| x.as_raw_number()).map(|r| r.as_str().to_string());
+                    if !c.is_number() || c.as_raw_number().map(|r| r.as_str().to_string()).as_deref() != Some(lit) || member.as_deref() != Some(lit) || arr2[0].as_f64().map(f64::to_bits) != v.as_f64().map(f64::to_bits) {
+                        ctx.fail("owned-rawnumber-accessors", format!("clone of to_value(RawNumber {:?}): is_number {}, as_raw_number {:?}", lit, c.is_number(), c.as_raw_number().map(|r| r.as_str().to_string())));
+                    }
+                    ctx.class("raw:owned-value");
+                }
+                Err(e) => ctx.fail("owned-rawnumber-to_value", format!("{:?}: {}", lit, e)),
+            }
+        }
     }
 }
 
@@ -414,7 +451,7 @@ impl Check for C08 {
         }
     }
     fn required_classes(&self, b: &str, t: Tier) -> Vec<&'static str> {
-        let mut v = vec!["ints:all-8-16-bit", "f64:every-exponent", "f64:subnormal-and-zero", "f64:random", "ints:wide", "raw:literals"];
+        let mut v = vec!["ints:all-8-16-bit", "f64:every-exponent", "f64:subnormal-and-zero", "f64:random", "ints:wide", "raw:literals", "raw:owned-value"];
         // the exhaustive f32 scan belongs to the full-scale native build; scaled-down builds stratify
         v.push(if t == Tier::Thorough && b == "native-rel" { "f32:exhaustive-block" } else { "f32:stratified-block" });
         v
